@@ -17,7 +17,7 @@ RULE = (
     "a target at/after the instant; later rounds re-use the drained scheduler (restart). The scheduler call runs in a "
     "daemon thread joined with a 10 s watchdog. Oracle: the call returns (else FAIL 'hang'), raises nothing, and every "
     "action due at or before the target (all of them for start()) ran exactly once per (re)scheduling, cancelled ones "
-    "never, none more often. Some actions additionally call advance_to(now+k) / advance_by(k) (k>0) / start() on the scheduler that is running them (check 'nested_drive' enumerates this for every kind x drain with further due actions after the nested target): the running scheduler ignores such calls (guard in advance_to/start), so the same oracle applies and the clock must not move across the nested call. The clock value is otherwise not judged (MAX_SPINNING=100 legitimately nudges it). Non-trivial: more "
+    "never, none more often. Some actions additionally call advance_to(now+k) / advance_by(k) (k>0) / start() on the scheduler that is running them (check 'nested_drive' enumerates this for every kind x drain with further due actions after the nested target): the running scheduler ignores such calls (guard in advance_to/start), so the same oracle applies and the clock must not move across the nested call. Checks 'step_chain' (enumerated) / 'step_chain_gen': a finite chain of n in 0..300 steps, each step returning scheduler.schedule*(next step) (spacing 0..2 units), optionally disposed from inside step k through the ROOT handle (or the running step's own handle): the drain returns under the watchdog, steps 0..k due by the target run exactly once, steps after k never run, and no more than n step invocations happen at all (invocation budget -> 'runaway-chain'). The clock value is otherwise not judged (MAX_SPINNING=100 legitimately nudges it). Non-trivial: more "
     "than 100 dequeues at one instant in some round. Distinct = distinct case JSON."
 )
 ASSUMPTIONS = [
@@ -217,6 +217,139 @@ def _enum(tier):
                         yield {"kind": kind, "init": init, "rounds": rounds}
 
 
+# ------------------------------------------------------------------------------------------------ step chains
+def _run_chain(case):
+    """Recursive scheduling idiom: step i does its work and `return scheduler.schedule*(step i+1)`, so the ROOT handle
+    owns the whole (finite, n steps) chain.  Step k disposes the root handle from inside; the successor it still
+    schedules and returns must be cancelled by the hand-over to its (already disposed) item handle."""
+    kind, init, n, k, spacing, run = case["kind"], case["init"], case["n"], case["dispose_at"], case["spacing"], case["run"]
+    sched = make(kind, init)
+    cls = [kind, "chain:" + run[0]]
+    endless = bool(case.get("endless")) and k is not None  # generic recursive code: every step schedules a successor;
+    # only the disposal inside step k ends the work
+    if endless:
+        n = k + 2
+    counts = [0] * (n + 1)
+    root = []
+    budget = [3 * n + 50]
+
+    def make_step(i):
+        def step(scheduler, state=None):
+            counts[min(i, n)] += 1
+            budget[0] -= 1
+            if budget[0] < 0:
+                raise _Runaway()
+            if k is not None and i == k:
+                if case["dispose_via"] == "root":
+                    root[0].dispose()
+                else:
+                    handles[i].dispose()  # the running step's own handle
+            if i + 1 < n or endless:
+                nxt = make_step(i + 1)
+                if spacing == 0:
+                    h = scheduler.schedule(nxt)
+                else:
+                    h = scheduler.schedule_relative(enc_rel(kind, spacing, case["form"]), nxt)
+                handles[i + 1] = h
+                return h
+            return None
+
+        return step
+
+    handles = {}
+    now = clock_of(kind, sched)
+    at = now + case["d"]
+    if n:
+        h0 = sched.schedule_relative(enc_rel(kind, case["d"], case["form"]), make_step(0)) if case["d"] else sched.schedule(make_step(0))
+        root.append(h0)
+        handles[0] = h0
+    if run[0] == "start":
+        target = None
+        call = sched.start
+    else:
+        target = max(at + run[1], now + 1)
+        if run[0] == "advance_to":
+            call = lambda: sched.advance_to(enc_abs(kind, target, run[2]))  # noqa: E731
+        else:
+            call = lambda: sched.advance_by(enc_rel(kind, target - now, run[2]))  # noqa: E731
+    if k is not None and k < n - 1:
+        cls.append("disposed-inside-step-with-successor")
+    if endless:
+        cls.append("endless-until-disposed")
+    if n > MAX_SPINNING and spacing == 0:
+        cls.append("over-spin")
+    status, val = guarded(call)
+    what = run[0]
+    if status == "hang":
+        return FAIL(f"hang|{kind}.{what}", f"{what}() did not return within the watchdog; case={case}", classes=cls)
+    if status == "exc":
+        if isinstance(val, _Runaway):
+            ran = [i for i, c in enumerate(counts) if c]
+            return FAIL(f"runaway-chain|{kind}.{what}", f"more step invocations than steps requested; steps run: {ran[:8]}.. case={case}", classes=cls)
+        if not isinstance(val, Exception):
+            raise val
+        return escaped(val, f"{kind}.{what}", f"case={case}", cls)
+    last = n - 1 if k is None else min(k, n - 1)  # last step that must run
+    for i in range(n):
+        due_i = at + i * spacing
+        if counts[i] > 1:
+            return FAIL(f"ran-too-often|{kind}.{what}", f"step {i} ran {counts[i]}x; case={case}", classes=cls)
+        if i > last and counts[i]:
+            return FAIL(f"cancelled-step-ran|{kind}.{what}", f"step {i} ran although the chain was disposed inside step {k}; case={case}", classes=cls)
+        if i <= last and not counts[i] and (target is None or due_i <= target):
+            return FAIL(f"due-action-not-run|{kind}.{what}", f"step {i} (due {due_i}, target {target}) did not run; case={case}", classes=cls)
+    return OK(k is not None and k < n - 1 and n >= 3, cls)
+
+
+class _Runaway(BaseException):
+    """More step invocations than the finite chain contains."""
+
+
+def _enum_chain(tier):
+    for kind, init in (("hist", 0), ("hist", 86_400_000), ("vts", 0), ("test", 0)):
+        for n in (0, 1, 2, 5, 102, 150):
+            for k in sorted({None, 0, 1, n // 2, n - 2, n - 1} - {-1, -2}, key=lambda x: -1 if x is None else x):
+                if k is not None and k >= max(n, 1):
+                    continue
+                for spacing, form in ((0, "num"), (1, "td"), (1, "num")):
+                    for ri, run in enumerate((["start"], ["advance_to", 3, "dt"], ["advance_by", 200, "td"])):
+                        for via in ("root", "own"):
+                            if via == "own" and (k is None or (n + ri) % 2):
+                                continue
+                            yield {"kind": kind, "init": init, "n": n, "dispose_at": k, "dispose_via": via, "spacing": spacing,
+                                   "form": form, "d": (n + ri) % 2, "run": run, "endless": bool(k is not None and (n + ri) % 3 == 0)}  # fmt: skip
+
+
+def _chain_cases():
+    def build(kind):
+        init = st.just(0) if kind != "hist" else st.sampled_from([0, 0, 7, 86_400_000])
+        n = st.one_of(st.integers(0, 8), st.integers(95, 110), st.integers(0, 300))
+
+        def with_n(nv):
+            return st.fixed_dictionaries(
+                {
+                    "kind": st.just(kind),
+                    "init": init,
+                    "n": st.just(nv),
+                    "dispose_at": st.one_of(st.none(), st.integers(0, max(nv - 1, 0))),
+                    "dispose_via": st.sampled_from(["root", "root", "own"]),
+                    "spacing": st.sampled_from([0, 0, 1, 2]),
+                    "form": st.sampled_from(["num", "int", "td"]),
+                    "d": st.integers(0, 3),
+                    "endless": st.booleans(),
+                    "run": st.one_of(
+                        st.just(["start"]),
+                        st.tuples(st.just("advance_to"), st.integers(0, 300), st.sampled_from(["num", "int", "dt"])).map(list),
+                        st.tuples(st.just("advance_by"), st.integers(0, 300), st.sampled_from(["num", "int", "td"])).map(list),
+                    ),
+                }
+            )
+
+        return n.flatmap(with_n)
+
+    return st.sampled_from(["vts", "test", "hist", "hist"]).flatmap(build)
+
+
 def _enum_nested(tier):
     """Actions that re-entrantly call advance_to / advance_by / start on the scheduler running them (targets after
     'now'), with further due actions after the nested target, for every scheduler kind and way of draining."""
@@ -241,6 +374,8 @@ def checks(tier):
     return [
         Check("threshold", _run, cases=_enum, shards={"quick": 4, "thorough": 16}),
         Check("nested_drive", _run, cases=_enum_nested, shards={"quick": 4, "thorough": 16}),
+        Check("step_chain", _run_chain, cases=_enum_chain, shards={"quick": 4, "thorough": 16}),
+        Check("step_chain_gen", _run_chain, strategy=_chain_cases(), examples={"quick": 300, "thorough": 16 * 2000}, shards={"quick": 4, "thorough": 16}),
         Check(
             "finish",
             _run,
